@@ -38,7 +38,7 @@ impl C07 {
             tier,
             seed,
             // 256 length offsets x {fixed, dynamic}: every (length, distance) pair once per code kind
-            n_alpha: 512,
+            n_alpha: 768,
             // final-byte padding: 8 bit offsets x 256 fills, 64 streams per case; stored padding likewise
             n_pad: 64,
             // directed dynamic headers: run-length symbol x repeat count, HLIT/HDIST/HCLEN values
@@ -165,7 +165,7 @@ fn apply(plain: &mut Vec<u8>, toks: &[Tok]) {
 /// stream `j` of the exhaustive token-alphabet sweep: a 32 KiB stored preamble, then one block with
 /// the reference (3 + (d + j) mod 256, d) for every d in 1..=32768; length 258 is written in both
 /// codings. Over j = 0..255 every (length, distance) pair occurs exactly once per code kind.
-pub fn alphabet_stream(j: u64, dynamic: bool, r: &mut Rng) -> (Vec<u8>, Vec<u8>, u64) {
+pub fn alphabet_stream(j: u64, dynamic: bool, deep: bool, r: &mut Rng) -> (Vec<u8>, Vec<u8>, u64) {
     let mut w = BitW::new();
     let pre = r.bytes(32768);
     w.put(0, 1);
@@ -202,6 +202,7 @@ pub fn alphabet_stream(j: u64, dynamic: bool, r: &mut Rng) -> (Vec<u8>, Vec<u8>,
         w.put(2, 2);
         let mut cfg = GenCfg::random(r, 0);
         cfg.max_code_len = 15;
+        cfg.code_shape = if deep { 2 } else { 0 };
         let (ll, dl) = gen::dynamic_lengths_for(r, &toks, &cfg);
         gen::write_dynamic_header(r, &mut w, &ll, &dl, cfg.slack, false);
         let (llc, dlc) = (gen::canon_codes(&ll), gen::canon_codes(&dl));
@@ -431,8 +432,9 @@ impl Monitor for C07 {
         if k < self.n_alpha {
             let mut r = Rng::derive(self.seed, 0x0700, k, 0);
             let dynamic = k >= 256;
+            let deep = k >= 512;
             let j = k % 256;
-            let (d, plain, pairs) = alphabet_stream(j, dynamic, &mut r);
+            let (d, plain, pairs) = alphabet_stream(j, dynamic, deep, &mut r);
             let before = ctx.violations;
             Self::judge(
                 &d,
@@ -440,13 +442,13 @@ impl Monitor for C07 {
                     plain: &plain,
                     consumed: d.len(),
                 }),
-                &format!("token alphabet sweep j={} ({})", j, if dynamic { "dynamic" } else { "fixed" }),
+                &format!("token alphabet sweep j={} ({})", j, if deep { "dynamic, deep inverted code" } else if dynamic { "dynamic" } else { "fixed" }),
                 false,
                 ctx,
                 false,
             );
             if ctx.violations == before {
-                ctx.count_n(if dynamic { "alphabet_pairs_dynamic" } else { "alphabet_pairs_fixed" }, pairs);
+                ctx.count_n(if deep { "alphabet_pairs_dynamic_deep" } else if dynamic { "alphabet_pairs_dynamic" } else { "alphabet_pairs_fixed" }, pairs);
             }
             return;
         }
